@@ -29,6 +29,8 @@ def _trait_def(t):
         out.append(f"    {attr}")
         out.append(f"    type {name}: {bound};")
     for m in t.methods:
+        if getattr(m, "doc", None):
+            out.append(f"    {m.doc}")
         for a in m.attrs:
             out.append(f"    {a}")
         if m.default_body:
